@@ -21,6 +21,7 @@ type verifReplayFile struct {
 	Nondets map[string]uint64 `json:"nondets"`
 	Choices map[string]int    `json:"choices"`
 	Params  map[string]int    `json:"params"`
+	Events  []string          `json:"events"`
 }
 
 var verifRT struct {
@@ -37,6 +38,8 @@ var verifRT struct {
 	quiesce  []func()
 	t0       time.Time
 	missing  []string
+	resumeAt []int
+	pauses   int
 }
 
 func verifInit() {
@@ -56,6 +59,18 @@ func verifInit() {
 		}
 		if err := json.Unmarshal(b, &verifRT.file); err != nil {
 			panic(err)
+		}
+		// gating of environment threads: the k-th pause ends once as many events
+		// have happened natively as preceded the k-th "~resume" in the recorded run
+		n := 0
+		verifRT.resumeAt = nil
+		verifRT.pauses = 0
+		for _, e := range verifRT.file.Events {
+			if strings.HasPrefix(e, "~resume") {
+				verifRT.resumeAt = append(verifRT.resumeAt, n)
+			} else if !strings.HasPrefix(e, "~") && !strings.HasPrefix(e, "PANIC") {
+				n++
+			}
 		}
 	}
 }
@@ -152,7 +167,29 @@ func verifOnQuiescence(f func()) {
 	verifRT.mu.Unlock()
 }
 func verifNow() int64 { return int64(time.Since(verifRT.t0)) }
-func verifPause()     { time.Sleep(20 * time.Millisecond) }
+func verifPause() {
+	verifRT.mu.Lock()
+	k := verifRT.pauses
+	verifRT.pauses++
+	want := -1
+	if k < len(verifRT.resumeAt) {
+		want = verifRT.resumeAt[k]
+	}
+	verifRT.mu.Unlock()
+	if want < 0 {
+		time.Sleep(20 * time.Millisecond)
+		return
+	}
+	for i := 0; i < 2000; i++ {
+		verifRT.mu.Lock()
+		n := len(verifRT.Events)
+		verifRT.mu.Unlock()
+		if n >= want {
+			return
+		}
+		time.Sleep(time.Millisecond)
+	}
+}
 func verifLive() int {
 	buf := make([]byte, 1<<20)
 	buf = buf[:runtime.Stack(buf, true)]
